@@ -254,6 +254,11 @@ func C19Scenario() *Scenario {
 						}
 					}
 				}
+				if code == 412 {
+					// a precondition failure usually comes with an error document; it is the
+					// status that says "use what you have", never this body
+					return HookAnswer{Code: code, Body: []byte(`{"status":{"call":-412},"children":[]}`)}
+				}
 				return HookAnswer{Code: code, Body: nil}
 			case "429-num":
 				call.expect429 = 3 + id%5
@@ -326,6 +331,14 @@ func C19Scenario() *Scenario {
 					return v
 				}
 				for _, c := range calls {
+					if c.answered && c.done && c.err == nil && c.got == -412 {
+						// whatever the client still holds: the document that came with a 412 is
+						// never the answer
+						if v := report(&Violation{Prop: "C19", Class: "body-of-a-412-used-as-answer", Sig: sig,
+							Detail: fmt.Sprintf("call %d about %s (client %d): webhook answered 412 to If-None-Match %q and the call succeeded with the 412's own document", c.id, c.parent, c.client, c.sentINM)}); v != nil {
+							return v
+						}
+					}
 					if !c.answered || !c.done || !c.expectKnown {
 						continue
 					}
